@@ -37,6 +37,20 @@ func genC10(r *core.Rand, run int) *MuxScenario {
 	for i := 0; i < k; i++ {
 		sc.Reqs = append(sc.Reqs, genProxiedRequest(r, i+1, sc.Knobs.MaxRecv))
 	}
+	// model validation and the literal reading of the property: in a quarter
+	// of the runs the first fault-free gRPC-fronted call gets a twin that runs
+	// the same script directly against the backend
+	if r.Chance(1, 4) {
+		for i := range sc.Reqs {
+			sp := sc.Reqs[i]
+			if sp.Fault.Kind == "" && (sp.Proto == "grpc" || sp.Proto == "grpcweb") && !sp.LateClose {
+				twin := sp
+				twin.ID, twin.TwinOf, twin.Proto, twin.Codec, twin.Window = 100+sp.ID, sp.ID, "direct", "proto", 0
+				sc.Reqs = append(sc.Reqs, twin)
+				break
+			}
+		}
+	}
 	fitLimits(sc)
 	return sc
 }
@@ -169,13 +183,79 @@ func runC10(t *testing.T, rc *RunCtx) *RunResult {
 		res.Violation = v
 		return res
 	}
+	killed := false
 	for _, rs := range mr.reqs {
+		if rs.spec.Fault.Kind == "bkill" {
+			killed = true
+		}
+	}
+	for _, rs := range mr.reqs {
+		if rs.spec.TwinOf != 0 {
+			if !killed {
+				if v := compareWithDirect(mr, rs, &res.Counters); v != nil {
+					res.Violation = v
+					return res
+				}
+			}
+			continue
+		}
 		if v := oracleProxy(mr, rs, &res.Counters); v != nil {
 			res.Violation = v
 			return res
 		}
 	}
 	return res
+}
+
+// compareWithDirect: what the client saw through larking against what a plain
+// grpc-go client saw calling the backend itself with the same script.
+func compareWithDirect(mr *muxRun, twin *reqState, cnt *[core.NumCounters]int) *Violation {
+	var orig *reqState
+	for _, rs := range mr.reqs {
+		if rs.spec.ID == twin.spec.TwinOf {
+			orig = rs
+		}
+	}
+	if orig == nil || !twin.direct.Done || twin.direct.Status == nil {
+		return nil
+	}
+	ctx := mr.contextKey(orig)
+	fail := func(rule, format string, args ...any) *Violation {
+		return violationf("C10", rule, ctx, "request %d vs its direct twin: "+format, append([]any{orig.spec.ID}, args...)...)
+	}
+	cnt[cDirectCompare]++
+	cv := orig.decodeResponse(orig.q.response())
+	d := &twin.direct
+	if len(cv.Msgs) != len(d.Msgs) {
+		return fail("differs-from-direct", "the client got %d response messages through larking, %d when calling the backend directly (status through larking %d %q, direct %v)", len(cv.Msgs), len(d.Msgs), cv.Status.Code, cv.Status.Message, d.Status)
+	}
+	for i := range d.Msgs {
+		if !proto.Equal(cv.Msgs[i], d.Msgs[i]) {
+			return fail("differs-from-direct", "response message #%d differs: through larking %s, direct %s", i, msgPreview(cv.Msgs[i]), msgPreview(d.Msgs[i]))
+		}
+	}
+	if cv.Status.Code != int(d.Status.Code()) || cv.Status.Message != d.Status.Message() {
+		return fail("differs-from-direct", "final status through larking %d %q, direct %d %q", cv.Status.Code, cv.Status.Message, int(d.Status.Code()), d.Status.Message())
+	}
+	if dp := d.Status.Proto(); dp != nil && len(dp.Details) > 0 {
+		var st spb.Status
+		if err := proto.Unmarshal(cv.Status.Details, &st); err != nil || !proto.Equal(&st, dp) {
+			return fail("differs-from-direct", "status details through larking %v (err %v), direct %v", &st, err, dp)
+		}
+	}
+	// the backend's view, where the script makes it schedule-independent
+	ol, tl := &orig.blog, &twin.blog
+	if ol.RecvEOF && tl.RecvEOF && ol.RecvErr == nil && tl.RecvErr == nil {
+		if len(ol.Recv) != len(tl.Recv) {
+			return fail("differs-from-direct", "the backend received %d messages through larking and %d directly, both up to a clean end of stream", len(ol.Recv), len(tl.Recv))
+		}
+		for i := range ol.Recv {
+			if !proto.Equal(ol.Recv[i], tl.Recv[i]) {
+				return fail("differs-from-direct", "backend message #%d differs: through larking %s, direct %s", i, msgPreview(ol.Recv[i]), msgPreview(tl.Recv[i]))
+			}
+		}
+	}
+	return nil
 }
 
 // oracleProxy: the transcript through larking must be the transcript the call
